@@ -542,6 +542,10 @@ impl Scenario for PopScenario {
         }
     }
     fn run_case(&self, case_seed: u64, tier: Tier) -> CaseRecord {
+        if self.prop == "C19" && case_seed % 12 == 1 {
+            // one case in twelve: real individuals of generated routing problems in vrp-core's own population
+            return crate::scen::vrpmap::run_case(case_seed, tier);
+        }
         if self.prop == "C19" && case_seed % 2 == 0 {
             return crate::scen::gsom::run_network_case(case_seed, tier);
         }
@@ -554,6 +558,9 @@ impl Scenario for PopScenario {
         rec
     }
     fn materialise(&self, case_seed: u64, tier: Tier) -> Value {
+        if self.prop == "C19" && case_seed % 12 == 1 {
+            return crate::scen::vrpmap::materialise(case_seed, tier);
+        }
         if self.prop == "C19" && case_seed % 2 == 0 {
             return crate::scen::gsom::materialise(case_seed, tier);
         }
@@ -562,6 +569,9 @@ impl Scenario for PopScenario {
     fn replay(&self, doc: &Value) -> CaseRecord {
         if doc.get("kind").and_then(|k| k.as_str()) == Some("gsom") {
             return crate::scen::gsom::replay(doc);
+        }
+        if doc.get("kind").and_then(|k| k.as_str()) == Some("vrpmap") {
+            return crate::scen::vrpmap::replay(doc);
         }
         match PopCase::from_json(doc) {
             Some(case) => self.record(&case),
